@@ -260,6 +260,55 @@ def _ctor_task(task):
     return acc
 
 
+def typed_generators(p):
+    """generator arguments that are not plain ints: elements of every IntegerGroup over the same field (any order dividing p-1,
+    prime or not), of another field, and number-like objects"""
+    grp = T.lib().groups.IntegerGroup
+    out = []
+    for q2 in [d for d in range(2, p) if (p - 1) % d == 0]:
+        g2 = next((h for h in range(2, p) if numth.mult_order(h, p) == q2), None)
+        if g2 is None:
+            continue
+        G2 = T.observe(lambda: grp(p=p, q=q2, g=g2))
+        if G2[0] != "ok":
+            continue
+        for k in range(1, min(q2, 12)):
+            out.append(("element of IntegerGroup(%d,%d,%d): Base^%d" % (p, q2, g2, k), G2[1].Base.scalarmult(k)))
+    other = T.observe(lambda: grp(p=47, q=23, g=2) if p != 47 else grp(p=23, q=11, g=2))
+    if other[0] == "ok":
+        out.append(("Base of a group over another field", other[1].Base))
+    import fractions, decimal
+    out += [("True", True), ("2.0", 2.0), ("'2'", "2"), ("b'\\x02'", b"\x02"), ("Fraction(2)", fractions.Fraction(2)), ("Decimal(2)", decimal.Decimal(2))]
+    return out
+
+
+def _ctor_typed_task(task):
+    """the constructor clause for generator arguments of other types: whatever it accepts must yield a group whose Base has order
+    dividing q"""
+    p, q = task
+    grp = T.lib().groups.IntegerGroup
+    acc = Acc()
+    for i, (what, g) in enumerate(typed_generators(p)):
+        got = T.observe(lambda: grp(p=p, q=q, g=g))
+        acc.n(evaluations=1, transitions=1, states=1)
+        acc.seen(("ctor-typed", what.split(":")[0].split(" of ")[0], got[0]))
+        if got[0] != "ok":
+            continue
+        v = T.observe(lambda: int.from_bytes(got[1].Base.to_bytes(), "big"))
+        if v[0] != "ok":
+            # a number-like object the arithmetic happens to accept (e.g. Decimal): judge the VALUE it stands for, if it has one
+            v = T.observe(lambda: int(g))
+            if v[0] != "ok" or v[1] != g:
+                acc.note("IntegerGroup accepts g=<%s> but the resulting Base cannot be encoded; no numeric value to judge" % what)
+                continue
+        o = numth.mult_order(v[1] % p, p) if isinstance(v[1], int) and v[1] % p else 0
+        if o == 0 or q % o != 0:
+            acc.violation("C18/constructor/accepts-bad-generator-object", {"what": "IntegerGroup(p=%d, q=%d, g=<%s>) is accepted although the resulting generator has order %d, which does not divide q" % (p, q, what, o),
+                          "replay": {"fn": "ctor_typed", "p": p, "q": q, "index": i}, "expected": "raises", "observed": ("ok", "generator %s of order %d" % (v[1] if v[0] == "ok" else v, o))})
+    acc.n(traces=1)
+    return acc
+
+
 # ---------------------------------------------------------------------------
 # constructor on wide moduli: generators whose q-th power only LOOKS like the identity
 
@@ -353,6 +402,7 @@ def run(tier, seed):
                 tasks.append((p, q))
     core.pmerge(_ctor_task, tasks, acc)
     core.pmerge(_ctor_wide_task, WIDE, acc)
+    core.pmerge(_ctor_typed_task, [t for t in tasks if t[0] in (23, 29, 31, 43, 47, 59, 67, 71, 79)], acc)
     # integer sets only: their derivation is a handful of source lines (pow() is one step); the Ed25519 try-and-increment loop is
     # tens of thousands of line events per element and is left to C16's thread harnesses on toy groups
     core.pmerge(_concurrent_first_use, [("Params1024", 1)] if tier == "quick" else [("Params1024", 2), ("Params2048", 2), ("Params3072", 1)], acc)
@@ -364,6 +414,13 @@ def replay(rec):
     if r["fn"] == "ctor_wide":
         got = T.observe(lambda: T.lib().groups.IntegerGroup(p=r["p"], q=r["q"], g=r["g"]))
         return got if got[0] != "ok" else ("ok", "g^q mod p = %d" % pow(r["g"] % r["p"], r["q"], r["p"]))
+    if r["fn"] == "ctor_typed":
+        what, g = typed_generators(r["p"])[r["index"]]
+        got = T.observe(lambda: T.lib().groups.IntegerGroup(p=r["p"], q=r["q"], g=g))
+        if got[0] != "ok":
+            return got
+        v = int.from_bytes(got[1].Base.to_bytes(), "big")
+        return ("ok", "generator %s of order %d" % (v, numth.mult_order(v, r["p"])))
     if r["fn"] == "ctor":
         got = T.observe(lambda: T.lib().groups.IntegerGroup(p=r["p"], q=r["q"], g=r["g"]))
         return got if got[0] != "ok" else ("ok", "order %d" % numth.mult_order(r["g"], r["p"]))
